@@ -121,6 +121,8 @@ class Engine(HeapMixin, ExprMixin, AccessMixin, CallMixin, StmtMixin, BytesMixin
     self.globals_used = set()
     self.ghost_hits = set()
     self.anchor_maps = {}
+    self.anchor_lines = {}     # unit -> anchor text -> line offset of the anchored statement (for the baseline)
+    self.anchor_hints = {}     # the same, as recorded on the unchanged tree
     self.aspect_assumed = 0
     self.degraded = []        # parts of the (changed) function the sidecar does not cover: handled by over-approximation or skipped
     self.anchor_drift = []
@@ -215,6 +217,7 @@ class Engine(HeapMixin, ExprMixin, AccessMixin, CallMixin, StmtMixin, BytesMixin
     res.obligations = self.obligations
     res.dropped = sorted(self.dropped)
     res.anchor_drift = list(self.anchor_drift)
+    res.anchor_lines = dict(self.anchor_lines.get(name, {}))
     res.degraded = list(self.degraded)
     res.inlined = sorted(self.inlined)
     res.externs = sorted(self.externs_used)
